@@ -437,19 +437,51 @@ Qed.
 Definition addr_consistent (lk : lookups) (l : list item) : Prop :=
   compatible (map h_b (hitems l)) /\ hints_ok lk l /\
   (forall x y, In x (hitems l) -> In y (hitems l) ->
-               ideep (h_it x) = ideep (h_it y) /\ imodel (h_it x) = imodel (h_it y)).
+               ideep (h_it x) = ideep (h_it y) /\ imodel (h_it x) = imodel (h_it y)) /\
+  (forall x y, In x l -> In y l -> ity x = ity y -> iprops x = iprops y).
 
 Lemma items_consistent_addr : forall lk D a, items_consistent lk D -> addr_consistent lk (at_addr a D).
 Proof.
-  intros lk D a (K1 & K2 & K3 & K4). split; [|split].
+  intros lk D a (K1 & K2 & K3 & K4). split; [|split; [|split]].
   - intros b b' I I' E. apply in_map_iff in I as ([[x nm] b0] & <- & I). apply in_map_iff in I' as ([[y nm'] b1] & <- & I').
     apply hitems_In in I as [I H]. apply hitems_In in I' as [I' H']. apply at_addr_In in I as [I A]. apply at_addr_In in I' as [I' A'].
     exact (K1 x y nm b0 nm' b1 I I' (eq_trans A (eq_sym A')) H H' E).
   - split.
-    + intros x y I I' E. apply at_addr_In in I as [I A]. apply at_addr_In in I' as [I' A']. apply K2; congruence || assumption.
+    + intros x y I I' E. apply at_addr_In in I as [I A]. apply at_addr_In in I' as [I' A']. unfold hint_of.
+      rewrite E, (K2 x y I I' (eq_trans A (eq_sym A')) E). reflexivity.
     + intros x y m m' I I'. apply at_addr_In in I as [I A]. apply at_addr_In in I' as [I' A']. intros H1 H2. exact (K4 x y m m' I I' (eq_trans A (eq_sym A')) H1 H2).
   - intros [[x nm] b] [[y nm'] b'] I I'. apply hitems_In in I as [I H]. apply hitems_In in I' as [I' H'].
     apply at_addr_In in I as [I A]. apply at_addr_In in I' as [I' A']. simpl. exact (K3 x y nm b nm' b' I I' (eq_trans A (eq_sym A')) H H').
+  - intros x y I I' E. apply at_addr_In in I as [I A]. apply at_addr_In in I' as [I' A'].
+    exact (K2 x y I I' (eq_trans A (eq_sym A')) E).
+Qed.
+
+(* config.properties of one address: the entry of a type is the properties of the items of that type *)
+Lemma props_of_get : forall l ty p,
+  (forall x y, In x l -> In y l -> ity x = ity y -> iprops x = iprops y) ->
+  (dget str_eqb ty (props_of l) = Some p <-> exists it, In it l /\ ity it = ty /\ iprops it = p).
+Proof.
+  intros l ty p K. split.
+  - intro H. apply (dget_In_pair str_eqb str_eqb_eq) in H. now apply props_of_entries.
+  - intros (it & I & <- & <-). destruct (props_of_keys l it I) as (p' & Ip).
+    apply (In_dget_some str_eqb str_eqb_eq) in Ip as (p2 & G & Ip2). rewrite G. f_equal.
+    apply props_of_entries in Ip2 as (it' & I' & E1 & <-). now apply K.
+Qed.
+
+Lemma props_of_invariant : forall l l' ty, same_set l l' ->
+  (forall x y, In x l -> In y l -> ity x = ity y -> iprops x = iprops y) ->
+  dget str_eqb ty (props_of l) = dget str_eqb ty (props_of l').
+Proof.
+  intros l l' ty S K.
+  assert (K' : forall x y, In x l' -> In y l' -> ity x = ity y -> iprops x = iprops y).
+  { intros x y I I'. apply S in I, I'. now apply K. }
+  destruct (dget str_eqb ty (props_of l)) as [p|] eqn:G.
+  - symmetry. apply (props_of_get l' ty p K'). apply (props_of_get l ty p K) in G as (it & I & H).
+    exists it. split; [now apply S|assumption].
+  - destruct (dget str_eqb ty (props_of l')) as [p|] eqn:G'; [|reflexivity].
+    apply (props_of_get l' ty p K') in G' as (it & I & H).
+    assert (dget str_eqb ty (props_of l) = Some p); [|congruence].
+    apply (props_of_get l ty p K). exists it. split; [now apply S|assumption].
 Qed.
 
 Lemma map_same_set {A B} (f : A -> B) : forall l l', same_set l l' -> same_set (map f l) (map f l').
@@ -461,7 +493,7 @@ Lemma config_of_equiv : forall lk a l l' c,
   same_set l l' -> addr_consistent lk l -> config_of lk a l = Some c ->
   exists c', config_of lk a l' = Some c' /\ config_equiv c c'.
 Proof.
-  intros lk a l l' c S (C & Hk & K3) H. unfold config_of in *.
+  intros lk a l l' c S (C & Hk & K3 & Kp) H. unfold config_of in *.
   pose proof (hitems_same_set l l' S) as SH.
   destruct (hitems l) as [|x t] eqn:E; [discriminate|]. injection H as <-.
   destruct (hitems l') as [|x' t'] eqn:E'.
@@ -469,9 +501,10 @@ Proof.
   - eexists. split; [reflexivity|].
     assert (Ix' : In x' (x :: t)) by (apply SH; simpl; auto).
     destruct (K3 x x' (or_introl eq_refl) Ix') as [D1 D2].
-    unfold config_equiv; cbn [caddr cdeep cmodel csvcs]. split; [reflexivity|split; [assumption|split]].
+    unfold config_equiv; cbn [caddr cdeep cmodel csvcs cprops]. split; [reflexivity|split; [assumption|split; [|split]]].
     + rewrite (hints_invariant lk l l' S Hk). now rewrite D2.
     + apply (services_equiv (map h_b (x :: t)) (map h_b (x' :: t'))); [now apply map_same_set|assumption].
+    + intro ty. now apply props_of_invariant.
 Qed.
 
 (* ------------------------------------------------------------ the filter of pyatv.scan *)
@@ -508,7 +541,7 @@ Qed.
 
 Lemma should_include_equiv : forall ids c c', config_equiv c c' -> should_include ids c = should_include ids c'.
 Proof.
-  intros ids c c' (_ & _ & _ & S). unfold should_include, ready. f_equal.
+  intros ids c c' (_ & _ & _ & S & _). unfold should_include, ready. f_equal.
   - apply existsb_svcs_equiv; [|assumption]. intros b b' (E & _). now rewrite E.
   - destruct ids as [|i t]; [reflexivity|]. rewrite !intersects_ids.
     apply existsb_svcs_equiv; [|assumption]. intros b b' (E & _). now rewrite E.
@@ -538,8 +571,9 @@ Proof.
   intros lk ids D D' S K. split.
   - now apply half.
   - intros c' I.
-    destruct (half lk ids D' D (same_set_sym _ _ S) (items_consistent_same_set lk D D' S K) c' I) as (c & I' & (Q1 & Q2 & Q3 & Q4 & Q5)).
-    exists c. split; [assumption|]. unfold config_equiv, svcs_equiv. repeat split; try (symmetry; assumption).
+    destruct (half lk ids D' D (same_set_sym _ _ S) (items_consistent_same_set lk D D' S K) c' I) as (c & I' & (Q1 & Q2 & Q3 & (Q4 & Q5) & Q6)).
+    exists c. split; [assumption|]. unfold config_equiv, svcs_equiv.
+    split; [now symmetry|split; [now symmetry|split; [now symmetry|split; [split|intro ty; symmetry; apply Q6]]]].
     + intros b Ib. destruct (Q5 b Ib) as (b' & Ib' & (E1 & E2 & E3 & E4)). exists b'. split; [assumption|].
       repeat split; try (symmetry; assumption). intro k. symmetry. apply E4.
     + intros b Ib. destruct (Q4 b Ib) as (b' & Ib' & (E1 & E2 & E3 & E4)). exists b'. split; [assumption|].
